@@ -12,9 +12,9 @@ import (
 
 func init() {
 	register("C14",
-		"Structural necessary conditions of C14 decided from /repo's SSA: (families) options are grouped by the variable their pflag.Value writes (directly, through a constructor argument or through a composite-literal field); every read of a sizer.* gitconfig key is control-dependent on !flags.Changed(f) for every option f of the family bound to the variable the read is assigned to; (constants) --verbose sets 0, --no-verbose 1, --critical 30, a false value 1, the default is 1, -v/-j are the short forms, and the gitconfig threshold and names values go through the same parsers as the options; (aliases) --include-regexp R and --include /R/ reach the same regexp filter with the same combiner, and --refgroup G and --include @G both combine a refgroup filter on the looked-up group with Include. Not decided: byte-identical output of paired runs.",
+		"Structural necessary conditions of C14 decided from /repo's SSA: (families) options are grouped by the variable their pflag.Value writes (directly, through a constructor argument or through a composite-literal field); every read of a sizer.* gitconfig key is control-dependent on !flags.Changed(f) for every option f of the family bound to the variable the read is assigned to; (constants) --verbose sets 0, --no-verbose 1, --critical 30, a false value 1, the default is 1, -v/-j are the short forms, and the gitconfig threshold and names values go through the same parsers as the options, every successful Set of a boolean threshold option writes the shared variable exactly once, and typed gitconfig reads ask git for the canonical form (--bool / --int) of what they parse; (aliases) --include-regexp R and --include /R/ reach the same regexp filter with the same combiner, and --refgroup G and --include @G both combine a refgroup filter on the looked-up group with Include. Not decided: byte-identical output of paired runs.",
 		[]string{"spf13/pflag: Changed(name) is true iff the option was given; Set is called in command-line order"},
-		ruleC14Families, ruleC14Constants, ruleC14Aliases, ruleC14Flex)
+		ruleC14Families, ruleC14Constants, ruleC14Aliases, ruleC14Flex, ruleC14ConfigTypes)
 	register("C19",
 		"Structural necessary conditions of C19 decided from /repo's SSA: (json) every MarshalJSON in the module returns the result of encoding/json (or, for object ids, hex digits between constant quotes) and the bytes written for --json are the unmodified result of json.MarshalIndent; (footnotes) a new footnote's number and its append are in the same unseen-text branch with number = count+1, numbering at print time is by position, empty text yields no citation, citations are created only while emitting a row and reach the row's citation column; (unbounded-lines) no line-oriented stage downstream of a git command whose lines carry names (rev-list --objects paths, for-each-ref refnames) uses a length-capped scanner. Not decided: validity of the emitted JSON and table for concrete byte strings (encoding/json is trusted to escape).",
 		[]string{"encoding/json escapes every string it marshals", "bufio.Scanner fails on tokens longer than its buffer limit (64 KiB by default)"},
@@ -186,7 +186,7 @@ func ruleC14Constants(c *Ctx) {
 			c.violate("C14.constants", "--"+n, token.NoPos, "", "option --"+n+" is not registered")
 			continue
 		}
-		call, ok := r.ValueArg.(*ssa.Call)
+		call, ok := itemValue(r.ValueArg).(*ssa.Call)
 		if !ok || newTFV == nil || call.Call.StaticCallee() != newTFV {
 			c.undecided("C14.constants", "--"+n, r.Call.Pos(), fnName(r.Call.Parent()), "--"+n+" is not built with sizes.NewThresholdFlagValue")
 			continue
@@ -259,11 +259,69 @@ func ruleC14Constants(c *Ctx) {
 					okFalse = true
 				}
 			})
+			// "the last one given wins": every successful Set writes the shared variable
+			succ := map[*ssa.BasicBlock]bool{}
+			for _, ret := range returnsOf(set) {
+				for _, rv := range c.resultValues(ret, 0) {
+					if isNilConst(rv) {
+						succ[ret.Block()] = true
+					}
+				}
+			}
+			ec := c.newEventCounter(func(in ssa.Instruction) int {
+				if st, ok := in.(*ssa.Store); ok && isNamed(st.Val.Type(), modPath+"/sizes", "Threshold") {
+					if _, isField := st.Addr.(*ssa.FieldAddr); !isField {
+						return 1
+					}
+				}
+				return 0
+			}, false)
+			if len(succ) > 0 {
+				if r := ec.region(set.Blocks[0], 0, succ, nil); r.Min == 1 && r.Max == 1 {
+					c.hold("C14.constants", "bool-value:every-set", set.Pos(), "every successful Set writes the shared threshold variable exactly once")
+				} else {
+					c.violate("C14.constants", "bool-value:every-set", set.Pos(), fnName(set), fmt.Sprintf("a successful Set writes the shared threshold variable %s times (must be exactly once): a repeated option would not override the options given before it, so the last one given would not win", rangeStr(r)))
+				}
+			}
 			if okTrue && okFalse {
 				c.hold("C14.constants", "bool-value", set.Pos(), "`--X=true` sets X's constant, `--X=false` sets 1")
 			} else {
 				c.violate("C14.constants", "bool-value", set.Pos(), fnName(set), fmt.Sprintf("the boolean threshold options do not set (their constant | 1) for (true | false): true ok=%v false ok=%v", okTrue, okFalse))
 			}
+		}
+	}
+	// the value options themselves: a successful Set stores through the receiver exactly once
+	for _, tn := range []string{"Threshold", "NameStyle"} {
+		nt := c.namedType("/sizes", tn)
+		if nt == nil {
+			continue
+		}
+		set := c.methodOf(types.NewPointer(nt), "Set")
+		if set == nil || len(set.Params) == 0 {
+			continue
+		}
+		succ := map[*ssa.BasicBlock]bool{}
+		for _, ret := range returnsOf(set) {
+			for _, rv := range c.resultValues(ret, 0) {
+				if isNilConst(rv) {
+					succ[ret.Block()] = true
+				}
+			}
+		}
+		recv := set.Params[0]
+		ec := c.newEventCounter(func(in ssa.Instruction) int {
+			if st, ok := in.(*ssa.Store); ok && c.resolve(st.Addr) == ssa.Value(recv) {
+				return 1
+			}
+			return 0
+		}, false)
+		if len(succ) == 0 {
+			continue
+		}
+		if r := ec.region(set.Blocks[0], 0, succ, nil); r.Min == 1 && r.Max == 1 {
+			c.hold("C14.constants", "set-writes:"+tn, set.Pos(), "every successful Set stores the parsed value through the receiver exactly once")
+		} else {
+			c.violate("C14.constants", "set-writes:"+tn, set.Pos(), fnName(set), fmt.Sprintf("a successful Set stores through the receiver %s times (must be exactly once): an accepted option or gitconfig value would have no effect", rangeStr(r)))
 		}
 	}
 	// gitconfig values go through the same parsers as the options
@@ -842,4 +900,68 @@ func ruleC14Flex(c *Ctx) {
 	c.RuleAlias = map[string]string{"C06.flex": "C14.aliases"}
 	defer func() { c.RuleAlias = nil }()
 	ruleC06Flex(c)
+}
+
+// ruleC14ConfigTypes: a gitconfig accessor that parses a boolean (integer)
+// asks git for the canonical spelling with --bool (--int): git accepts
+// yes/on/1/valueless keys that strconv does not, so without the option a
+// valid sizer.progress would abort the run instead of acting like the flag.
+func ruleC14ConfigTypes(c *Ctx) {
+	nBool, nInt := 0, 0
+	for _, s := range c.gitSites("config") {
+		hasGet := false
+		for _, a := range s.Argv {
+			if a == "--get" {
+				hasGet = true
+			}
+		}
+		if !hasGet {
+			continue
+		}
+		has := func(opts ...string) bool {
+			for _, a := range s.Argv {
+				for _, o := range opts {
+					if a == o {
+						return true
+					}
+				}
+			}
+			return false
+		}
+		parsesBool, parsesInt := false, false
+		allInstrs(s.Fn, func(in ssa.Instruction) {
+			if call, ok := in.(*ssa.Call); ok {
+				switch calleeQ(&call.Call) {
+				case "strconv.ParseBool":
+					parsesBool = true
+				case "strconv.Atoi", "strconv.ParseInt", "strconv.ParseUint":
+					parsesInt = true
+				}
+			}
+		})
+		name := fnName(s.Fn)
+		switch {
+		case parsesBool:
+			nBool++
+			if has("--bool", "--type=bool") {
+				c.hold("C14.config-types", name, s.Call.Pos(), "git config --get --bool: git canonicalises the value to true/false before strconv.ParseBool sees it")
+			} else {
+				c.violate("C14.config-types", name, s.Call.Pos(), name, "the value is parsed with strconv.ParseBool but git is not asked for the canonical form (--bool): yes/no/on/off or a valueless key, which git accepts, abort the run", "argv: "+strings.Join(s.Argv, " "))
+			}
+		case parsesInt:
+			nInt++
+			if has("--int", "--type=int") {
+				c.hold("C14.config-types", name, s.Call.Pos(), "git config --get --int: git canonicalises the value (1k -> 1024) before strconv parses it")
+			} else {
+				c.violate("C14.config-types", name, s.Call.Pos(), name, "the value is parsed as an integer but git is not asked for the canonical form (--int)", "argv: "+strings.Join(s.Argv, " "))
+			}
+		default:
+			if has("--bool", "--int", "--type=bool", "--type=int") {
+				c.violate("C14.config-types", name, s.Call.Pos(), name, "a string value is read with a type option: git would rewrite or reject values the option accepts", "argv: "+strings.Join(s.Argv, " "))
+			}
+		}
+	}
+	if nBool < 1 || nInt < 1 {
+		c.violate("C14.config-types", "floor", token.NoPos, "", fmt.Sprintf("expected a boolean and an integer gitconfig accessor (sizer.progress, sizer.jsonVersion), found %d and %d", nBool, nInt))
+	}
 }
